@@ -208,7 +208,7 @@ func (c *Coordinator) runOnce() (err error) {
 			changeAbleShards = changeAbleShardsInfo(shardsInfo)
 		)
 
-		if int32(len(changeAbleShards)) < c.option.MinShard { // insure that scaling up to min shard
+		if int32(len(shardsInfo)) < c.option.MinShard { // insure that scaling up to min shard
 			if err := repItem.ChangeScale(c.option.MinShard); err != nil {
 				c.log.Error(err.Error())
 				continue
